@@ -508,6 +508,11 @@ pub fn replay_file(path: &Path) -> i32 {
             return 2;
         }
     };
+    let child_pid = child.id();
+    let sweep = move || {
+        let _ = std::fs::remove_dir_all(format!("/dev/shm/scsim-{}", child_pid));
+        let _ = std::fs::remove_file(format!("/dev/shm/scsim-current-{}.json", child_pid));
+    };
     // a trace that makes the library hang is reproduced when it hangs again: 60 s without an exit
     let t0 = std::time::Instant::now();
     let status = loop {
@@ -524,6 +529,7 @@ pub fn replay_file(path: &Path) -> i32 {
             let _ = child.kill();
             let _ = child.wait();
             let _ = std::fs::remove_file(&tmp);
+            sweep();
             return match rf {
                 Some(rf) if rf.clause == "process-crash" => {
                     println!("reproduced: the process running the trace did not terminate within 60 s");
@@ -548,6 +554,7 @@ pub fn replay_file(path: &Path) -> i32 {
     };
     let out = Out { stdout: std::fs::read(&tmp).unwrap_or_default(), status };
     let _ = std::fs::remove_file(&tmp);
+    sweep();
     print!("{}", String::from_utf8_lossy(&out.stdout));
     match out.status.code() {
         Some(0) => 0,
